@@ -1766,6 +1766,14 @@ func runConcurrent(w *world, progs [][]opInst, cfg verifseam.Config, free bool) 
 }
 
 func simC20World(c *Ctx) {
+	// sync.Pool as shipped, or (the overlay's default) handing nothing between goroutines: see makeOverlay
+	if realPool := c.Int(tape.Sched, 2) == 1; poolSwitchable {
+		setPooling(realPool)
+		defer setPooling(false)
+		if realPool {
+			c.Probe("c20.world-with-real-sync.Pool")
+		}
+	}
 	w := c20GenWorld(c)
 	nTasks := 2 + c.G(3)
 	if c.G(6) == 5 {
